@@ -106,8 +106,14 @@ fn load_config(config_path: Option<&Path>, cli: &Cli) -> Result<Config> {
 
     let loader =
         FileConfigLoader::with_options(FetchPolicy::from_cli(cli.extends_policy), project_root);
-    let load_result =
-        config_path.map_or_else(|| loader.load(), |path| loader.load_from_path(path))?;
+    let load_result = if cli.no_extends {
+        config_path.map_or_else(
+            || loader.load_without_extends(),
+            |path| loader.load_from_path_without_extends(path),
+        )
+    } else {
+        config_path.map_or_else(|| loader.load(), |path| loader.load_from_path(path))
+    }?;
 
     // Validate semantic correctness after loading
     validate_config_semantics(&load_result.config)?;
